@@ -42,6 +42,7 @@ func cmdRun(argv []string) int {
 	pkgs := fs.String("pkgs", "", "packages to load (default: package of entry)")
 	known := fs.String("known", "", "comma separated known finding ids")
 	dump := fs.String("json", "", "write result JSON")
+	inputs := fs.String("inputs", "", "JSON file with concrete inputs (concrete mode: prints traces)")
 	forkstats := fs.Bool("forkstats", false, "print fork sites")
 	subst := fs.String("subst", "", "a=b,c=d function substitutions")
 	props := fs.String("props", "", "comma separated property ids enabled in the harness")
@@ -90,12 +91,28 @@ func cmdRun(argv []string) int {
 			spec.Known[k] = true
 		}
 	}
+	if *inputs != "" {
+		b, err := os.ReadFile(*inputs)
+		if err != nil {
+			fmt.Fprintln(os.Stderr, err)
+			return 2
+		}
+		spec.Concrete = map[string]interface{}{}
+		if err := json.Unmarshal(b, &spec.Concrete); err != nil {
+			fmt.Fprintln(os.Stderr, err)
+			return 2
+		}
+		spec.Workers = 1
+	}
 	res, err := p.Run(spec)
 	if err != nil {
 		fmt.Fprintln(os.Stderr, err)
 		return 2
 	}
 	fmt.Print(res.Summary())
+	for i, tr := range res.Traces {
+		fmt.Printf("  trace %d: %v\n", i, tr)
+	}
 	if *dump != "" {
 		b, _ := json.MarshalIndent(res.Stats, "", " ")
 		os.WriteFile(*dump, b, 0644)
